@@ -27,7 +27,8 @@ impl Template {
         w.paren(|w| {
             w.function(|w| {
                 w.expr_stmt(|w| {
-                    write!(w, "var H={{}}")?;
+                    // (looked up by template name: must not have the members of `Object.prototype`)
+                    write!(w, "var H=Object.create(null)")?;
                     Ok(())
                 })?;
                 w.expr_stmt(|w| {
@@ -38,7 +39,7 @@ impl Template {
                     write!(w, "var I=")?;
                     w.function_args("P", |w| {
                         w.expr_stmt(|w| {
-                            write!(w, "if(!S)S=Object.assign({{}}")?;
+                            write!(w, "if(!S)S=Object.assign(Object.create(null)")?;
                             for i in self.globals.imports.iter() {
                                 let p = crate::path::resolve(&self.path, &i.src.name);
                                 write!(w, ",(G[{}]||{{}})._", gen_lit_str(&p))?;
